@@ -16,6 +16,10 @@ TRUSTED_BASE = [
     'T4 floats as reals (no NaN/inf), str(int) injective (STRINT)',
     'T6 HEAP-CLOSED: references stored in allocated objects / containers are allocated; allocation is fresh',
     'TYPES: fields hold values of their declared (sidecar schema) types; element types of typed lists',
+    'PJS: assumed object model of python_jsonschema_objects for assets / associations (heap objects; the two array properties of an '
+    'association in schema order; == and `in` are identity (PJS-EQ — the C05 floor shows this is false for nameless assets: known finding); '
+    'attributes created on first assignment via ghost presence flags; as_dict() a shallow copy; getattr(asset, <defense>) a lookup in a ghost dict)',
+    'ORIG: the ghost origin map is written only at allocation and by DEEPCOPY, at fresh addresses (assumed wherever it is havoced)',
     'SETCARD: |{f(x) for x in L}| <= len(L), with equality iff L has no repeated element and f is injective on its members '
     '(assumed by the encoding of set comprehensions; proved in lemmas/SetCard.lean with Lean 4 + Mathlib, re-checked in the thorough tier of C05/C06)',
 ]
